@@ -18,7 +18,7 @@ TECHNIQUE = "deterministic network simulation on a virtual clock: Timeout grid x
 LEVEL_TEXT = (
     "The (total, connect, read) grid over {unset, None, 0.5, 2, 10} plus invalid values x connect durations {0, 0.3, 1, 5, 20} x response delays x placement (pool, request, float "
     "shorthand) x fresh/reused connection x http/https x sequences of two requests sharing a pool Timeout; every wait happens on the simulated clock, the socket records the timeout "
-    "handed to it in each phase and when it expired. Sampling of the full product."
+    "handed to it in each phase (connect, send on fresh and reused connections, response wait) and when it expired. Sampling of the full product."
 )
 LEVEL_NOTE = "trusted: the arithmetic reference in this module; the claim is about the value handed to the socket and the expiry instant on the simulated clock, not about the kernel honouring it"
 N = {"quick": 40000, "thorough": 600000}
